@@ -18,10 +18,16 @@ use core::sync::atomic::{AtomicUsize, Ordering};
 use core::task::Waker;
 
 /// A waker that counts how often it was woken.
+/// `wake(self: Arc<Self>)` forgets its `Arc` instead of dropping it: the reference count of the
+/// counter object only grows on that path, so the solver does not have to explore
+/// `Arc::drop_slow` / deallocation of the counter at every wake-up (measured: the counter's drop
+/// glue was the largest single contributor to the formula). The counter is never freed; the
+/// harnesses `forget` their objects at the end anyway.
 pub struct CountWake(pub AtomicUsize);
 impl Wake for CountWake {
     fn wake(self: Arc<Self>) {
         self.0.fetch_add(1, Ordering::SeqCst);
+        core::mem::forget(self);
     }
     fn wake_by_ref(self: &Arc<Self>) {
         self.0.fetch_add(1, Ordering::SeqCst);
@@ -34,4 +40,56 @@ pub fn counting_waker() -> (Arc<CountWake>, Waker) {
 }
 pub fn wakes(cw: &Arc<CountWake>) -> usize {
     cw.0.load(Ordering::SeqCst)
+}
+
+// ---- reference-count stub (used by the channel / status-condition schedules) -------------------
+// `AtomicUsize::fetch_sub` is what `Arc::drop` / `Weak::drop` use to decide "was this the last
+// reference?". In a symbolic schedule every reference count is a symbolic value after the first
+// merge, so CBMC explores `Arc::drop_slow` (destruction of the shared channel state: VecDeque and
+// Waker drop glue, layout computation, deallocation) at EVERY drop of a sender / receiver / waker /
+// receive-future, although it can only happen once, after the last handle is gone and nobody can
+// observe the channel any more (measured: these drop_slow explorations are > 60 % of the formula).
+// The stub performs the decrement but reports "other references exist" (2): shared state behind an
+// `Arc` is never destroyed or freed — exactly the behaviour of a program that keeps one forgotten
+// clone of every `Arc`. The `Drop` impls of the channel types themselves (OneshotSender,
+// NotificationSender) are executed for real; only the destructor of the *shared inner state* and the
+// deallocation are outside the claim (as for every harness: objects are `forget`-ed at the end).
+pub fn fetch_sub_never_last(a: &AtomicUsize, val: usize, _order: Ordering) -> usize {
+    let old = a.load(Ordering::SeqCst);
+    a.store(old.wrapping_sub(val), Ordering::SeqCst);
+    2
+}
+
+// ---- allocator stub (used by the mpsc FIFO harness with `u8` values) ----------------------------
+// `alloc::raw_vec::min_non_zero_cap` is called at run time only by `RawVecInner::grow_amortized`,
+// i.e. at the start of the amortized growth of a full Vec / VecDeque buffer, before the new buffer
+// is allocated. CBMC does not constant-propagate the queue length through the `Arc`-allocated
+// channel state, so it explores `VecDeque::grow` at every send (new allocation of symbolic size +
+// memcpy of symbolic length: measured > 10 GB for 3 sends) although growth is infeasible for 3 sends
+// into a queue created with capacity 64. This stub makes "the buffer never grows within the bound"
+// a CHECKED obligation (it panics; the panic is one more assertion that the solver must prove
+// unreachable), not an assumption, and removes the allocation of the new buffer from the formula.
+pub fn growth_unreachable(_elem_size: usize) -> usize {
+    panic!("VERIF: amortized buffer growth reached (more elements than the initial capacity)")
+}
+
+// Same function for harnesses whose Vecs must perform their FIRST allocation (capacity 0 -> 4 / 8)
+// in a concrete warm-up prefix: faithful copy of `min_non_zero_cap` (library/alloc/src/raw_vec/
+// mod.rs: 8 for 1-byte elements, 4 up to 1 KiB, else 1 — any value >= 1 is a correct growth
+// policy) until `arm_growth_check()` is called; afterwards amortized growth is asserted unreachable.
+static GROWTH_ARMED: core::sync::atomic::AtomicBool = core::sync::atomic::AtomicBool::new(false);
+pub fn arm_growth_check() {
+    GROWTH_ARMED.store(true, Ordering::SeqCst);
+}
+pub fn min_non_zero_cap_checked(size: usize) -> usize {
+    if GROWTH_ARMED.load(Ordering::SeqCst) {
+        panic!("VERIF: amortized buffer growth reached after the warm-up (more elements than the warmed-up capacity)")
+    }
+    if size == 1 {
+        8
+    } else if size <= 1024 {
+        4
+    } else {
+        1
+    }
 }
